@@ -786,9 +786,17 @@ fn state_checks(cfg: &Config, fr: &Fresh, hist_idx: &[u16]) -> (u64, u64, Vec<Vi
         match replay(cfg, fr, &hist) {
             Err(e) => out.push(vio(cfg, "machinery", None, "replay-diverged", e, &hist)),
             Ok((mut h, m)) => {
+                let listed: Vec<String> = crate::report::catch(|| h.p().streams().map(|n| crate::ops::name_class(&n)).collect::<Vec<String>>()).unwrap_or_default();
                 for name in &cfg.stream_names {
                     probes += 1;
                     let cls = crate::ops::name_class(name);
+                    // has_stream must agree with the listing (internal streams
+                    // are in neither)
+                    if let Ok(has) = crate::report::catch(|| h.p().has_stream(name)) {
+                        if has != listed.contains(&cls) {
+                            out.push(vio(cfg, "stream-content", hist.last().cloned(), "has-stream-disagrees-with-listing", format!("has_stream({:?}) = {} but the listing {} it", name, has, if has { "does not contain" } else { "contains" }), &hist));
+                        }
+                    }
                     let want: Option<&Vec<u8>> = m.streams.iter().find(|(k, _)| crate::ops::name_class(k) == cls).map(|(_, v)| v);
                     let got = crate::report::catch(|| {
                         let has = h.p().has_stream(name);
